@@ -9,7 +9,7 @@ import itertools
 
 import numpy as np
 
-from ..target import peaks_and_crossings as pc
+from ..target import eqsig, peaks_and_crossings as pc
 from ..result import Res
 from ..refs import peaks_ref as ref
 from .c11 import lcg_word
@@ -96,6 +96,10 @@ def check_word(r, w, fam, containers=('f', 'i', 'l')):
                         r.cls('tol-removes-something')
                 except Exception as e:
                     r.fail('crossings.tol-subsequence', sub, 'malformed result: %s' % e, observed=got)
+    if n <= 5:
+        ok, got = r.call('crossings', dict(sub0, input='signal-object'), pc.get_zero_crossings_indices, eqsig.AccSignal(np.array(w, dtype=float), 0.01))
+        if ok:
+            r.expect_ints('crossings.exact', dict(sub0, input='signal-object'), got, ref.zero_crossings(w, False))
     # ---- switched peaks: non-constant series
     if len(set(w)) == 1:
         r.disabled['constant-word(switched)'] += 1
@@ -136,6 +140,11 @@ def check_word(r, w, fam, containers=('f', 'i', 'l')):
             s0 = g
             if any(w[i] == 0 for i in g):
                 r.cls('zero-valued-reported')
+    if n <= 5 and s0 is not None:
+        for inp, arg in (('signal-object', eqsig.AccSignal(np.array(w, dtype=float), 0.01)), ('array-via-wrapper', np.array(w, dtype=float))):
+            ok, got = r.call('switched', dict(sub0, input=inp), pc.get_switched_peak_indices, arg)
+            if ok:
+                r.expect_ints('switched.wrapper', dict(sub0, input=inp), got, s0)
     if s0 is not None:
         for tol in TOLS:
             sub = dict(sub0, tol=tol)
